@@ -197,6 +197,12 @@ def run(rep, F, rule):
                         if not (r.startswith("Err(") and "f(" in r):
                             problem = "on a run where f fails [%s] the value returned is %s" % (show_pc(q.pc)[:120], r[:100])
                             break
+                        # f is not called again after it failed: the failing call is the last call of f decided on the path
+                        fcalls = [(t, v) for t, v in q.pc if t[0] == "discr" and isinstance(t[1], tuple) and t[1] and t[1][0] == "call"
+                                  and t[1][1].rsplit("::", 1)[-1] in ("call", "call_mut", "call_once")]
+                        if fcalls and (fcalls[-1][1] == 0 or any(v != 0 for _t, v in fcalls[:-1])):
+                            problem = "after f failed on one coordinate it is still applied to another one [%s]: a later success can hide the error" % show_pc(q.pc)[:160]
+                            break
             if problem:
                 rep.bad(rule, k, "%s::%s on %s: %s" % (key, meth, norm(shape)[:120], problem), where=fn.loc())
             else:
